@@ -8,6 +8,7 @@ import (
 	"fmt"
 	"io"
 	"strings"
+	"testing/iotest"
 
 	mxj "github.com/clbanning/mxj/v2"
 	"verif/harness/tagged"
@@ -239,6 +240,19 @@ var xmlDecoderForms = []xmlDecoderForm{
 		return m, e
 	}},
 	{"NewMapFormattedXmlSeq", true, func(b []byte) (map[string]interface{}, error) { m, e := mxj.NewMapFormattedXmlSeq(b); return m, e }},
+	// readers that deliver the LAST byte together with io.EOF (legal for an io.Reader), without a ReadByte method
+	{"NewMapXmlReaderRaw(data+EOF)", false, func(b []byte) (map[string]interface{}, error) {
+		m, _, e := mxj.NewMapXmlReaderRaw(iotest.DataErrReader(hideByteReader{bytes.NewReader(b)}))
+		return m, e
+	}},
+	{"NewMapXmlSeqReaderRaw(data+EOF)", true, func(b []byte) (map[string]interface{}, error) {
+		m, _, e := mxj.NewMapXmlSeqReaderRaw(iotest.DataErrReader(hideByteReader{bytes.NewReader(b)}))
+		return m, e
+	}},
+	{"NewMapXmlReader(data+EOF)", false, func(b []byte) (map[string]interface{}, error) {
+		m, e := mxj.NewMapXmlReader(iotest.DataErrReader(hideByteReader{bytes.NewReader(b)}))
+		return m, e
+	}},
 }
 
 // checkXmlInput applies every decoder form to one byte input with known class
@@ -248,7 +262,9 @@ func checkXmlInput(doc []byte, class, origin string, a *Acc, rc interface{}) int
 		n++
 		var m map[string]interface{}
 		var err error
-		one := func(sig, detail string) { a.Mis(sig, fmt.Sprintf("%s on %q (%s): %s", f.name, doc, origin, detail), rc) }
+		one := func(sig, detail string) {
+			a.Mis(sig, fmt.Sprintf("%s on %q (%s): %s", f.name, doc, origin, detail), rc)
+		}
 		if p := guard(func() { m, err = f.call(doc) }); p != "" {
 			one("tok:panic:"+f.name, p)
 			continue
